@@ -222,3 +222,194 @@ Proof.
   split; [reflexivity|].
   vm_compute. discriminate.
 Qed.
+
+(* ======================= C. the drop plan over the levels ======================= *)
+
+Definition table_clean (ps : list bytes) (t : table) : Prop :=
+  forall e, In e (t_ents t) -> has_any_prefix ps e = false.
+Definition level_clean (ps : list bytes) (l : list table) : Prop :=
+  forall t, In t l -> table_clean ps t.
+
+(* completeness of containsAnyPrefixes on a level: a table it does not report holds no
+   entry carrying a prefix.  This is what finding F24 breaks. *)
+Definition picker_complete (ps : list bytes) (l : list table) : Prop :=
+  forall t, In t l -> contains_any_prefixes ps t = false -> table_clean ps t.
+
+Lemma set_level_nth_in ls n l (t : table) : In t (nth n (set_level ls n l) []) -> In t l.
+Proof.
+  revert n. induction ls as [|x r IH]; intros n; cbn [set_level].
+  - destruct n; cbn; contradiction.
+  - destruct n as [|n]; cbn [nth]; auto. apply IH.
+Qed.
+
+Lemma set_level_nth_other ls n m l : n <> m -> nth m (set_level ls n l) [] = nth m ls [] (A := list table).
+Proof.
+  revert n m. induction ls as [|x r IH]; intros n m H; cbn [set_level]; auto.
+  destruct n as [|n], m as [|m]; cbn [nth]; auto; try congruence.
+Qed.
+
+Lemma reorder_in ids l (t : table) : In t (reorder ids l) -> In t l.
+Proof.
+  induction ids as [|i r IH]; cbn [reorder]; [contradiction|].
+  destruct (find (fun t0 => t_id t0 =? i) l) as [t0|] eqn:F; auto.
+  intros [<-|H]; auto. apply find_some in F. tauto.
+Qed.
+
+Lemma in_firstn {A} n (l : list A) x : In x (firstn n l) -> In x l.
+Proof. intros H. rewrite <- (firstn_skipn n l). apply in_or_app; now left. Qed.
+Lemma in_skipn {A} n (l : list A) x : In x (skipn n l) -> In x l.
+Proof. intros H. rewrite <- (firstn_skipn n l). apply in_or_app; now right. Qed.
+
+Lemma split_counts_in s layout t e : In t (split_counts s layout) -> In e (t_ents t) -> In e s.
+Proof.
+  revert s. induction layout as [|[id n] r IH]; intros s; cbn [split_counts]; [contradiction|].
+  intros [<-|H] He.
+  - cbn in He. eapply in_firstn; eauto.
+  - eapply in_skipn. eapply IH; eauto.
+Qed.
+
+Lemma ids_eqb_eq a b : ids_eqb a b = true -> a = b.
+Proof.
+  revert b. induction a as [|x a IH]; intros [|y b]; cbn; try discriminate; auto.
+  intros H. apply andb_true_iff in H. destruct H as [H1 H2]. apply N.eqb_eq in H1. f_equal; auto.
+Qed.
+
+Lemma prefixes_eqb_eq a b : prefixes_eqb a b = true -> a = b.
+Proof.
+  revert b. induction a as [|x a IH]; intros [|y b]; cbn; try discriminate; auto.
+  intros H. apply andb_true_iff in H. destruct H as [H1 H2]. apply bytes_eqb_eq in H1. f_equal; auto.
+Qed.
+
+Lemma in_ids_of g t : In t g -> in_ids (ids_of g) t = true.
+Proof.
+  intros H. unfold in_ids, ids_of. apply existsb_exists. exists (t_id t). split; [now apply in_map|apply N.eqb_refl].
+Qed.
+
+(* where the tables of the output level of an installed compaction come from *)
+Lemma apply_compaction_next_in ls c t :
+  In t (nth (c_next c) (apply_compaction ls c) []) ->
+  (In t (nth (c_next c) ls []) /\ in_ids (c_bot c) t = false)
+  \/ In t (split_counts (compaction_output ls c) (c_layout c)).
+Proof.
+  unfold apply_compaction.
+  set (nl := drop_tables (c_bot c) (nth (c_next c) ls []) ++ split_counts (compaction_output ls c) (c_layout c)).
+  set (ls1 := set_level ls (c_next c) (reorder (c_order c) nl)).
+  intros H.
+  assert (H1: In t (nth (c_next c) ls1 [])).
+  { destruct (Nat.eq_dec (c_this c) (c_next c)) as [E|E].
+    - rewrite E in H. apply set_level_nth_in in H. unfold drop_tables in H. apply filter_In in H. tauto.
+    - rewrite set_level_nth_other in H by assumption. exact H. }
+  apply set_level_nth_in, reorder_in in H1. unfold nl in H1. apply in_app_or in H1.
+  destruct H1 as [H1|H1]; [left|now right].
+  unfold drop_tables in H1. apply filter_In in H1. destruct H1 as [A B]. apply negb_true_iff in B. auto.
+Qed.
+
+Lemma apply_compaction_this_in ls c t :
+  c_this c <> c_next c ->
+  In t (nth (c_this c) (apply_compaction ls c) []) ->
+  In t (nth (c_this c) ls []) /\ in_ids (c_top c) t = false.
+Proof.
+  unfold apply_compaction. intros E H. apply set_level_nth_in in H.
+  unfold drop_tables in H. apply filter_In in H. destruct H as [A B].
+  rewrite set_level_nth_other in A by congruence. apply negb_true_iff in B. auto.
+Qed.
+
+Lemma apply_compaction_other ls c j :
+  j <> c_this c -> j <> c_next c -> nth j (apply_compaction ls c) [] = nth j ls [].
+Proof.
+  unfold apply_compaction. intros A B. rewrite !set_level_nth_other by congruence. reflexivity.
+Qed.
+
+Lemma apply_obs_ok ls c out ls' : apply_obs ls c out = (0, ls') -> ls' = apply_compaction ls c.
+Proof.
+  unfold apply_obs. destruct (entries_eqb _ _); [|discriminate].
+  destruct (_ || _); [|discriminate]. now intros [= <-].
+Qed.
+
+(* the new tables of a compaction run with drop prefixes ps are clean *)
+Lemma output_tables_clean ls c t :
+  In t (split_counts (compaction_output ls c) (c_layout c)) -> table_clean (c_drop c) t.
+Proof.
+  intros H e He. pose proof (split_counts_in _ _ _ _ H He) as Hin.
+  unfold compaction_output in Hin. apply drop_filter_removes in Hin. cbn [cp_drop] in Hin. tauto.
+Qed.
+
+(* every table containsAnyPrefixes reports ends up in a group *)
+Lemma table_groups_cover ps l cur t :
+  In t cur \/ (In t l /\ contains_any_prefixes ps t = true) ->
+  exists g, In g (table_groups ps l cur) /\ In t g.
+Proof.
+  revert cur. induction l as [|x r IH]; intros cur H; cbn [table_groups].
+  - destruct H as [H|[[] _]]. destruct cur as [|c0 cur]; [contradiction|].
+    exists (c0 :: cur). split; [now left|exact H].
+  - destruct (contains_any_prefixes ps x) eqn:Cx.
+    + apply IH. destruct H as [H|[[<-|H] Hc]].
+      * left. apply in_or_app; now left.
+      * left. apply in_or_app; right; now left.
+      * right; auto.
+    + destruct cur as [|c0 cur].
+      * apply IH. destruct H as [[]|[[<-|H] Hc]]; [congruence|right; auto].
+      * destruct H as [H|[[<-|H] Hc]].
+        -- exists (c0 :: cur). split; [now left|exact H].
+        -- congruence.
+        -- destruct (IH [] (or_intror (conj H Hc))) as (g & A & B). exists g. split; [now right|exact B].
+Qed.
+
+(* one level >= 1: afterwards every table of the level is either a clean output or an
+   original table outside all groups; the other levels are untouched *)
+Lemma run_groups_level ps nkeep lvl groups ls os ls' os' :
+  run_groups ps nkeep lvl groups ls os = (0, ls', os') ->
+  (forall t, In t (nth lvl ls' []) ->
+     table_clean ps t \/ (In t (nth lvl ls []) /\ forall g, In g groups -> in_ids (ids_of g) t = false))
+  /\ (forall j, j <> lvl -> nth j ls' [] = nth j ls []).
+Proof.
+  revert ls os. induction groups as [|g gr IH]; intros ls os; cbn [run_groups].
+  - intros [= <- <-]. split; auto. intros t Ht. right. split; auto. intros g [].
+  - destruct os as [|[c out] os1]; [discriminate|].
+    destruct ((c_this c =? lvl)%nat && (c_next c =? lvl)%nat) eqn:E1; cbn [negb]; [|discriminate].
+    destruct (c_top c) as [|? ?] eqn:E2; cbn [negb]; [|discriminate].
+    destruct (ids_eqb (ids_of g) (c_bot c)) eqn:E3; cbn [negb]; [|discriminate].
+    destruct (prefixes_eqb (c_drop c) ps) eqn:E4; cbn [negb]; [|discriminate].
+    destruct (c_nkeep c =? nkeep) eqn:E5; cbn [negb]; [|discriminate].
+    destruct (apply_obs ls c out) as [code ls1] eqn:E6.
+    destruct (code =? 0) eqn:E7; [|intros [= ? ? ?]; subst; discriminate].
+    apply N.eqb_eq in E7. subst code. apply apply_obs_ok in E6.
+    apply andb_true_iff in E1. destruct E1 as [Et En]. apply Nat.eqb_eq in Et, En.
+    apply ids_eqb_eq in E3. apply prefixes_eqb_eq in E4.
+    intros H. destruct (IH ls1 os1 H) as [IH1 IH2]. split.
+    + intros t Ht. destruct (IH1 t Ht) as [Hc|[Hin Hng]]; [now left|].
+      subst ls1.
+      rewrite <- En in Hin.
+      apply (apply_compaction_next_in ls c t) in Hin.
+      destruct Hin as [[A B]|A].
+      * right. rewrite En in A. split; auto. intros g' [<-|Hg']; auto. now rewrite E3.
+      * left. rewrite <- E4. exact (output_tables_clean ls c t A).
+    + intros j Hj. rewrite IH2 by assumption. subst ls1. apply apply_compaction_other; congruence.
+Qed.
+
+Lemma run_levels_clean ps nkeep lvls ls os ls' os' :
+  NoDup lvls ->
+  run_levels ps nkeep lvls ls os = (0, ls', os') ->
+  (forall lvl, In lvl lvls -> picker_complete ps (nth lvl ls [])) ->
+  (forall lvl, In lvl lvls -> level_clean ps (nth lvl ls' []))
+  /\ (forall j, ~ In j lvls -> nth j ls' [] = nth j ls []).
+Proof.
+  revert ls os. induction lvls as [|lvl r IH]; intros ls os Hnd; cbn [run_levels].
+  - intros [= <- <-] _. split; [intros ? []|auto].
+  - destruct (run_groups ps nkeep lvl (table_groups ps (nth lvl ls []) []) ls os) as [[code ls1] os1] eqn:E.
+    destruct (code =? 0) eqn:Ec; [|intros [= ? ? ?]; subst; discriminate].
+    apply N.eqb_eq in Ec. subst code. intros H Hpc.
+    inversion Hnd as [|? ? Hnotin Hnd']; subst.
+    destruct (run_groups_level _ _ _ _ _ _ _ _ E) as [G1 G2].
+    assert (Hpc1: forall l, In l r -> picker_complete ps (nth l ls1 [])).
+    { intros l Hl. rewrite G2 by (intros ->; contradiction). apply Hpc. now right. }
+    destruct (IH ls1 os1 Hnd' H Hpc1) as [I1 I2]. split.
+    + intros l [<-|Hl]; [|now apply I1].
+      rewrite I2 by assumption. intros t Ht. destruct (G1 t Ht) as [Hc|[Hin Hng]]; auto.
+      apply (Hpc lvl (or_introl eq_refl) t Hin).
+      destruct (contains_any_prefixes ps t) eqn:Cp; auto. exfalso.
+      destruct (table_groups_cover ps (nth lvl ls []) [] t (or_intror (conj Hin Cp))) as (g & A & B).
+      pose proof (Hng g A) as Hf. rewrite (in_ids_of g t B) in Hf. discriminate Hf.
+    + intros j Hj. rewrite I2 by (intros Hr; apply Hj; now right).
+      apply G2. intros ->. apply Hj. now left.
+Qed.
